@@ -145,3 +145,27 @@ def parse_text_prods(text):
             alts.append([] if syms == ["EMPTY"] else syms)
         prods.append((lhs.strip(), alts))
     return prods
+
+
+def unary_nullable_grammar(rng, two_nts=None):
+    """Small grammars over the single terminal 'b' with many nullable/recursive shapes
+    (S: 'b' 'b' | 'b' S S | EMPTY;  S: A A A | EMPTY; A: S 'b' | EMPTY; ...).  Long inputs are
+    cheap (b^k), and these shapes are where GLR revisit logic is exercised."""
+    for _ in range(200):
+        nts = ["S", "A"] if (two_nts if two_nts is not None else rng.random() < 0.5) else ["S"]
+        prods = []
+        for l in nts:
+            n_alt = rng.randint(2, 3)
+            alts = []
+            if rng.random() < 0.7:
+                alts.append([])
+            while len(alts) < n_alt:
+                k = rng.randint(1, 3)
+                a = [rng.choice(nts + ["'b'"]) if rng.random() < 0.6 else "'b'" for _ in range(k)]
+                if a not in alts:
+                    alts.append(a)
+            rng.shuffle(alts)
+            prods.append((l, alts))
+        if productive_reachable(prods):
+            return prods, gr_text(prods)
+    return None
